@@ -1,12 +1,12 @@
 """C18 - Resolvers expose exactly the visible elements."""
-import os, re, subprocess
+import os, re, subprocess, hashlib
 from vlib import *
 
 ID = "C18"
 COQ_FILES = ["Common/Corr.v", "Model/Visibility.v", "Proofs/Visibility.v", "Props/C18.v"]
 PROPS = "Props/C18.v"
 THEOREMS = ["C18_find_iff_visible", "C18_find_sound", "C18_find_total", "C18_resolveInFile_terminates",
-            "C18_pub_closure_is_rt_closure"]
+            "C18_weak_flag_irrelevant", "C18_pub_closure_is_rt_closure"]
 AXIOMS_OK = []
 TRUSTED = ["hand-written Gallina mirror of linker/resolve.go resolveInFile (publicImportsOnly, checked path list) and of the "
            "lookup functions of linker/files.go fileResolver (by name, by extendee and tag, by path)",
@@ -15,7 +15,9 @@ TRUSTED = ["hand-written Gallina mirror of linker/resolve.go resolveInFile (publ
 ASSUMPTIONS = ["files are identified by path; a compile gives every file its imports (graph_ok: unique paths, imports present); "
                "cycles cannot be compiled, so the correspondence uses acyclic graphs while the theorems also cover cyclic ones",
                "findExtension's walk over nested messages is flattened to a list of (extendee, tag, extension) per file",
-               "FindMessageByName / FindExtensionByName / FindMessageByURL use the same traversal with a lookup that can also fail with a kind error; not modelled"]
+               "FindMessageByName / FindExtensionByName / FindMessageByURL use the same traversal with a lookup that can also fail with a kind error; "
+               "not modelled in Coq, observed and judged by the plugin's visible-set oracle only",
+               "an import carries IsPublic and IsWeak (both can be set only through a descriptor proto); the model keeps both flags and never reads IsWeak"]
 
 
 def q(parent, n):
@@ -30,15 +32,32 @@ class File:
         self.i = i
         self.path = "g%d.proto" % i
         self.pkg = pkg
-        self.imports = []        # (File, public)
+        self.imports = []        # (File, kind) with kind in KINDS
+        self.kind = {}           # full name -> "message" | "extension" | "other"
         self.lines = []
         self.names = []          # every full name the file declares
         self.exts = []           # (extendee full name, tag, extension full name)
         self.msgs = []           # extendable messages (full names)
 
 
+KINDS = ["plain", "public", "weak", "public+weak"]     # import modifiers; the last one only through a descriptor proto
+
+
+def is_pub(kind):
+    return kind.startswith("public")
+
+
+def is_weak(kind):
+    return kind.endswith("weak")
+
+
+def kind_of(x):
+    """edges of the hand-written graphs may still say True / False for public / plain"""
+    return x if isinstance(x, str) else ("public" if x else "plain")
+
+
 def visible(f):
-    """the definition: the file, its direct imports, the public closure of the direct imports"""
+    """the definition: the file, its direct imports (whatever their modifier), the public closure of the direct imports"""
     out = [f]
     todo = [g for g, _ in f.imports]
     while todo:
@@ -46,15 +65,32 @@ def visible(f):
         if g in out:
             continue
         out.append(g)
-        todo += [h for h, pub in g.imports if pub]
+        todo += [h for h, k in g.imports if is_pub(k)]
+    return out
+
+
+def reached(f):
+    """for the evidence histogram: visible file -> (depth of the walk, modifier of the last import followed) on a shortest way"""
+    out = {f: (0, "self")}
+    level = [(g, k) for g, k in f.imports]
+    d = 1
+    while level:
+        nxt = []
+        for g, k in level:
+            if g in out:
+                continue
+            out[g] = (d, k)
+            nxt += [(h, k2) for h, k2 in g.imports if is_pub(k2)]
+        level = nxt
+        d += 1
     return out
 
 
 def build(rng, n, edges, sizes=None):
     """edges: list of (i, j, public) with i importing j; files are declared in a shuffled order of ids."""
     files = [File(i, rng.choice(PKGS)) for i in range(n)]
-    for i, j, pub in edges:
-        files[i].imports.append((files[j], pub))
+    for i, j, kind in edges:
+        files[i].imports.append((files[j], kind_of(kind)))
     tag = [1000]
     used = set()
     # elements, in dependency order (imports first) so that extendees exist
@@ -70,13 +106,15 @@ def build(rng, n, edges, sizes=None):
         L.append('syntax = "proto2";')
         if f.pkg:
             L.append("package %s;" % f.pkg)
-        for g, pub in f.imports:
-            L.append('import %s"%s";' % ("public " if pub else "", g.path))
+        for g, kind in f.imports:
+            # public+weak cannot be written in source: the text says public, the harness adds the weak flag (also_weak)
+            L.append('import %s"%s";' % ("public " if is_pub(kind) else ("weak " if is_weak(kind) else ""), g.path))
         nm = rng.range(1, 3)
         for k in range(nm):
             m = "M%d_%d" % (f.i, k)
             fq = q(f.pkg, m)
             f.names += [fq, fq + ".a", fq + ".In", fq + ".In.b", fq + ".K", fq + ".V%d_%d" % (f.i, k)]
+            f.kind[fq] = f.kind[fq + ".In"] = "message"
             f.msgs.append(fq)
             L.append("message %s { extensions 1000 to max; optional int32 a = 1; message In { optional int32 b = 1; } "
                      "enum K { V%d_%d = 0; } }" % (m, f.i, k))
@@ -92,11 +130,14 @@ def build(rng, n, edges, sizes=None):
                 holder = "H%d_%d" % (f.i, k)
                 hq = q(f.pkg, holder)
                 f.names += [hq, hq + ".x%d" % k]
+                f.kind[hq] = "message"
+                f.kind[hq + ".x%d" % k] = "extension"
                 L.append("message %s { extend .%s { optional int32 x%d = %d; } }" % (holder, ext, k, tag[0]))
                 f.exts.append((ext, tag[0], hq + ".x%d" % k))
             else:
                 xq = q(f.pkg, "e%d_%d" % (f.i, k))
                 f.names.append(xq)
+                f.kind[xq] = "extension"
                 L.append("extend .%s { optional int32 e%d_%d = %d; }" % (ext, f.i, k, tag[0]))
                 f.exts.append((ext, tag[0], xq))
         if rng.chance(1, 3):
@@ -122,20 +163,39 @@ def corpus(rng):
     out.append(build(rng, 4, [(0, 1, True), (1, 2, True), (2, 3, True)]))
     # first import leads nowhere, second one holds the element (loop goes on after NotFound)
     out.append(build(rng, 5, [(0, 1, False), (0, 2, False), (0, 3, True), (3, 4, True), (1, 4, False)]))
+    # a direct weak import is a direct import: 1 and what 1 re-exports (2, 3) are visible from 0, 4 is not
+    out.append(build(rng, 5, [(0, 1, "weak"), (1, 2, "public"), (2, 3, "public"), (2, 4, "weak")]))
+    # only weak imports; a weak import of an indirectly visited file is not followed (it is not public)
+    out.append(build(rng, 4, [(0, 1, "weak"), (0, 2, "weak"), (1, 3, "weak")]))
+    # every modifier as the direct import of one root, each with a public, a plain and a weak import behind it
+    out.append(build(rng, 8, [(0, 1, "plain"), (0, 2, "public"), (0, 3, "weak"), (1, 4, "public"), (2, 5, "weak"), (3, 6, "public"),
+                              (3, 7, "plain"), (1, 7, "weak")]))
+    # weak import behind a public chain at depth 2 and 3; the same file reached weakly and publicly
+    out.append(build(rng, 6, [(0, 1, "plain"), (1, 2, "public"), (2, 3, "weak"), (2, 4, "public"), (4, 5, "weak"), (0, 5, "weak"), (4, 3, "public")]))
+    # descriptor-proto input: imports that are public AND weak are public (root, depth 1 and depth 2), next to plain weak ones
+    out.append(build(rng, 6, [(0, 1, "public+weak"), (1, 2, "public+weak"), (2, 3, "public+weak"), (3, 4, "weak"), (0, 5, "weak")]))
+    out.append(build(rng, 5, [(0, 1, "weak"), (1, 2, "public+weak"), (2, 3, "public"), (3, 4, "public+weak")]))
     return out
 
 
 def gen_graph(rng):
     n = rng.range(2, 8)
     edges = []
+    # one graph in four goes through descriptor protos, where public+weak imports exist as well
+    mods = ["plain"] * 3 + ["public"] * 3 + ["weak"] * 2
+    if rng.chance(1, 4):
+        mods = mods + ["public+weak"] * 2
     dens = rng.range(2, 6)
     for i in range(n):
         for j in range(i + 1, n):
             if rng.below(10) < dens:
-                edges.append((i, j, rng.chance(1, 2)))
+                edges.append((i, j, rng.choice(mods)))
     # shuffle so that import order in a file is not always ascending
     edges = rng.shuffle(edges)
-    return build(rng, n, edges)
+    files = build(rng, n, edges)
+    if "public+weak" in mods:
+        files[0].via_proto = True
+    return files
 
 
 HEADER = ("From Coq Require Import List NArith ZArith Bool.\nImport ListNotations.\n"
@@ -211,7 +271,7 @@ def coq_eval_vis(name, groups, per_shard, timeout=1500):
 def run(ctx):
     rng = ctx.rng
     graphs = corpus(rng)
-    for _ in range(ctx.budget(90, 3000)):
+    for _ in range(ctx.budget(84, 3000)):
         graphs.append(gen_graph(rng))
     ins = []
     metas = []
@@ -228,18 +288,25 @@ def run(ctx):
         exts.append(("zz.Nothing", 1001))
         paths = [f.path for f in files] + ["nowhere.proto"]
         order = [f.path for f in rng.shuffle(files)]
-        ins.append({"files": {f.path: "\n".join(f.lines) + "\n" for f in files}, "order": order,
-                    "names": names, "exts": [[e, t] for e, t in exts], "paths": paths})
+        one_in = {"files": {f.path: "\n".join(f.lines) + "\n" for f in files}, "order": order,
+                  "names": names, "exts": [[e, t] for e, t in exts], "paths": paths}
+        aw = {f.path: [g.path for g, k in f.imports if k == "public+weak"] for f in files}
+        if any(aw.values()) or getattr(files[0], "via_proto", False):
+            one_in["also_weak"] = {p_: l for p_, l in aw.items() if l}
+        ins.append(one_in)
         metas.append((names, exts, paths))
     outs = ctx.impl("visibility", ins)
     groups, gmeta = [], []
     for files, i, (names, exts, paths), o in zip(graphs, ins, metas, outs):
         shape = {"files": i["files"]}
+        if "also_weak" in i:
+            shape["also_weak"] = i["also_weak"]
         if "res" not in o:
             ctx.corr_break("visibility:harness", shape, o)
             if "panic" in o:
-                ctx.violation("panic", "resolver or compiler panicked on a generated import graph", {"files": i["files"], "observed": o})
+                ctx.violation("panic", "resolver or compiler panicked on a generated import graph", dict(shape, observed=o))
             continue
+        gkey = hashlib.sha1(repr((sorted(i["files"].items()), sorted(i.get("also_weak", {}).items()))).encode()).hexdigest()
         by_path = {f.path: f for f in files}
         owner_n = {}
         for f in files:
@@ -255,7 +322,7 @@ def run(ctx):
                 nid.setdefault(e, len(nid))
         nid.setdefault("zz.Nothing", len(nid))
         g_term = "[%s]" % "; ".join(
-            "mkV %d [%s] [%s] [%s]" % (f.i, "; ".join("(%d, %s)" % (g.i, coq_bool(pub)) for g, pub in f.imports),
+            "mkV %d [%s] [%s] [%s]" % (f.i, "; ".join("(%d, %s, %s)" % (g.i, coq_bool(is_pub(k)), coq_bool(is_weak(k))) for g, k in f.imports),
                                       "; ".join(str(nid[n]) for n in f.names),
                                       "; ".join("(%d, %d%%Z, %d)" % (nid[e], t, nid[x]) for e, t, x in f.exts))
             for f in files)
@@ -263,20 +330,30 @@ def run(ctx):
         rmeta = []
         for f in files:
             vis = visible(f)
+            how = reached(f)
+            base = dict(shape, resolver_of=f.path, visible_files=sorted(g.path for g in vis),
+                        imports={g.path: ["%s %s" % (k, h.path) for h, k in g.imports] for g in files if g.imports})
             r = o["res"][f.path]
             terms, tm = [], []
 
             def one(kind, key, got, owner, elem, qterm, elem_id):
-                ctx.count((tuple(sorted(i["files"].items())), f.path, kind, key), True,
-                          "%s:%s" % (kind, "visible" if owner in vis else ("hidden" if owner is not None else "absent")))
-                replay = {"files": i["files"], "resolver_of": f.path, "query": [kind, key], "answer": got,
-                          "defined_in": owner.path if owner else None,
-                          "visible_files": sorted(g.path for g in vis)}
+                ctx.count((gkey, f.path, kind, key), True,
+                          "%s:%s" % (kind, ("visible:depth%d:%s" % how[owner]) if owner in vis else ("hidden" if owner is not None else "absent")))
+                replay = dict(base, query=[kind, key], answer=got, defined_in=owner.path if owner else None)
+                want = (owner.path + "|" + elem) if (owner is not None and owner in vis) else ""
+                if elem_id == "typed":
+                    # FindMessageByName / FindMessageByURL / FindExtensionByName: the same walk, but the first visible file that
+                    # declares the name answers with a kind error when the element is of another kind (not modelled in Coq)
+                    right = owner is not None and owner.kind.get(elem, "other") == qterm
+                    if want != "" and not right:
+                        if not got.startswith("ERR:"):
+                            ctx.violation("wrong-element-found", "a typed lookup answered although the visible element is of another kind", replay)
+                        return
                 if got.startswith("ERR:"):
-                    ctx.corr_break("visibility:" + kind, replay, {"observed": got})
+                    if elem_id != "typed":
+                        ctx.corr_break("visibility:" + kind, replay, {"observed": got})
                     ctx.violation("lookup-error", "a lookup failed with an error other than NotFound", replay)
                     return
-                want = (owner.path + "|" + elem) if (owner is not None and owner in vis) else ""
                 if got != want:
                     if want == "":
                         ctx.violation("hidden-element-found", "the resolver found an element that is not defined in the visible set "
@@ -285,6 +362,8 @@ def run(ctx):
                         ctx.violation("visible-element-not-found", "the resolver did not find an element defined in the visible set", replay)
                     else:
                         ctx.violation("wrong-element-found", "the resolver answered with another element or file", replay)
+                if elem_id == "typed":
+                    return
                 if got == "":
                     ob = "ONotFound"
                 else:
@@ -297,6 +376,10 @@ def run(ctx):
                 tm.append(replay)
             for n, got in zip(names, r["n"]):
                 one("name", n, got, owner_n.get(n), n, "QName %d" % nid[n], nid[n])
+            for n, gm, gu, ge_ in zip(names, r["m"], r["u"], r["e"]):
+                one("msgname", n, gm, owner_n.get(n), n, "message", "typed")
+                one("msgurl", n, gu, owner_n.get(n), n, "message", "typed")
+                one("extname", n, ge_, owner_n.get(n), n, "extension", "typed")
             for (e, t), got in zip(exts, r["x"]):
                 ow = owner_x.get((e, t))
                 one("ext", "%s/%d" % (e, t), got, ow[0] if ow else None, ow[1] if ow else "", "QExt %d %d%%Z" % (nid[e], t), None)
@@ -317,8 +400,13 @@ def run(ctx):
             rp = gmeta[gi][ri][k]
             ctx.corr_break("visibility:" + rp["query"][0], rp, {"observed": rp["answer"]})
     ctx.rule = ("import graphs: %d hand-picked (deep public chain, diamond, file imported both ways, all non-public, all public, "
-                "NotFound before the hit) + random acyclic graphs of 2-8 files with density 0.2-0.6 and a fair coin per edge for public; "
+                "NotFound before the hit, direct weak import with re-exports behind it, only weak imports, every modifier as direct import "
+                "with every modifier behind it, weak behind public chains, public+weak through descriptor protos) + random acyclic graphs of "
+                "2-8 files with density 0.2-0.6 and a modifier per edge (plain 3 : public 3 : weak 2; one graph in four is handed to the "
+                "compiler as descriptor protos, there also public+weak 2); "
                 "every file declares 1-3 messages (field, nested message, nested enum with value), 0-3 extensions (top-level or nested in a "
                 "message) of messages it can see, sometimes a service; for every file as resolver root: every declared full name of the "
-                "whole graph + 2 absent names, every (extendee, tag) + 2 absent, every path + 1 absent; "
+                "whole graph + 2 absent names (FindDescriptorByName, and FindMessageByName / FindMessageByURL / FindExtensionByName judged by "
+                "the visible-set oracle only), every (extendee, tag) + 2 absent, every path + 1 absent; histogram classes = kind of lookup x "
+                "(depth of the walk and modifier of the last import followed | hidden | absent); "
                 "distinct = distinct (graph text, root, query)" % len(corpus(Rng(0))))
